@@ -471,8 +471,12 @@ def replay(prop, path):
 
 # plans contributed as separate modules bin/plan_Cxx.py: each defines plan(prop, tier, seed, t0), META (dict) and ENGINE (dict)
 import glob as _glob, importlib as _importlib
+# only plans listed in bin/ready.txt are registered (a contributed plan is added there once its check is green)
+_ready = set(open(os.path.join(os.path.dirname(os.path.abspath(__file__)), "ready.txt")).read().split())
 for _f in sorted(_glob.glob(os.path.join(os.path.dirname(os.path.abspath(__file__)), "plan_C*.py"))):
     _name = os.path.basename(_f)[:-3]
+    if _name.split("_")[1] not in _ready and not os.environ.get("VERIF_ALL_PLANS"):
+        continue
     _m = _importlib.import_module(_name)
     _pid = _name.split("_")[1]
     PLANS[_pid] = _m.plan
